@@ -413,6 +413,8 @@ def run(c, prog):
     from sa import db as _dbm
     _C16.rule_sername(core.Alias(c, "C01"), prog, _dbm.Database())     # two canonical properties written under one name lose a value
     common.rule_writer_total(c, prog, "C01.total", "binary")
+    from . import C17_domain
+    C17_domain.run(core.Alias(c, "C01"), prog)     # the binary format stores Tags / MaterialColors through their blobs and Font through the same merged spelling
     rule_codes(c, prog)
     rule_uid(c, prog)
     rule_sstr_index(c, prog)
